@@ -200,6 +200,7 @@ def match_known(prop, failure, known):
     for k in known.get("known", []):
         if k["property"] != prop: continue
         if k.get("what") and k["what"] != failure.get("what"): continue
+        if k.get("what_regex") and not re.search(k["what_regex"], failure.get("what", "")): continue
         if k.get("input_regex") and not re.search(k["input_regex"], failure.get("input", "")): continue
         return k
     return None
@@ -305,7 +306,7 @@ def check(prop, tier, seed):
                             oracle_failures=len(c_fail), known_findings_reproduced=sorted(known_hit)),
         input_distribution=meta.get("stats", {}),
         extractor=dict(ok=eok, failures=efails),
-        exhaustive=False,
+        exhaustive=bool(meta.get("exhaustive", False)),
     )
     write_evidence(prop, tier, seed, P["level"], cov, P.get("assumptions", []), wall, 1 if violation else 0)
     print("%s %s: theorems %d/%d, ops %d (model %d, spec %d), direct oracle checks %d, model mismatches %d, oracle failures %d (known %d), %.1fs"
@@ -357,6 +358,11 @@ def manifest():
             level_claimed=dict(category=P["level"], text=P["level_text"], design_ref=P.get("design_ref", "DESIGN.md §6")),
             level_note=P["level_note"], technique=P["technique"]))
     na = [dict(property_id=k, reason=v) for k, v in sorted(REG.NOT_APPLICABLE.items())]
+    allp = [json.loads(l)["id"] for l in open(os.path.join(ROOT, "properties.jsonl")) if l.strip()]
+    for pid in allp:
+        if pid not in REG.PROPS and pid not in REG.NOT_APPLICABLE:
+            na.append(dict(property_id=pid, reason="not claimed yet: the check for this property is still under construction (the technique applies; see DESIGN.md §6)"))
+    na.sort(key=lambda e: e["property_id"])
     m = dict(version=1, setup_cmd="python3 check.py --setup",
              hooks=dict(guard="monero_rs_verif", enable="none needed: every anchored function is reachable through the public API; the harness path-depends on /repo (features=[\"serde\"]) and rebuilds it from the working tree",
                         baseline_off_cmd="cd /repo && cargo test --workspace --no-fail-fast --offline", source_commits=[], add_only=True),
